@@ -110,6 +110,7 @@ pub fn grid(full: bool) -> Vec<BigUint> {
     v.push((p + big(1)) / big(2));
     v.push(p - big(2));
     v.push(p - big(1));
+    v.extend(limb_patterns(19));
     v.sort();
     v.dedup();
     v
